@@ -50,10 +50,26 @@ def ofNat (n : Nat) : Num := .int n
 
 def bitlen (n : Nat) : Nat := if n = 0 then 0 else Nat.log2 n + 1
 
-/-- Nearest-even binary64 to `num/den` (`den > 0`): `some (m, e)` meaning `m·2^e`,
-    or `none` for overflow to infinity. -/
-def roundToDouble (num den : Nat) : Option (Nat × Int) :=
+/-- the odd part of a positive number and the exponent of 2 removed: `n = oddPart · 2^twoAdic` -/
+def twoAdic : Nat → Nat → Nat
+  | 0, _ => 0
+  | fuel + 1, n => if n ≠ 0 ∧ n % 2 = 0 then twoAdic fuel (n / 2) + 1 else 0
+
+/-- if `num/den` is exactly a binary64 value, that value as `(m, e)` with `m` odd (or zero) -/
+def exactDouble? (num den : Nat) : Option (Nat × Int) :=
   if num = 0 then some (0, 0) else
+  let g := Nat.gcd num den
+  let n := num / g
+  let d := den / g
+  let j := twoAdic d d
+  if d ≠ 2 ^ j then none else
+  let t := twoAdic n n
+  let m := n / 2 ^ t
+  let e : Int := (t : Int) - (j : Int)
+  if m < 2 ^ 53 ∧ -1074 ≤ e ∧ (bitlen m : Int) + e ≤ 1024 then some (m, e) else none
+
+/-- nearest-even rounding of an inexact `num/den` (DESIGN Appendix D) -/
+def roundInexact (num den : Nat) : Option (Nat × Int) :=
   let e0 : Int := (bitlen num : Int) - (bitlen den : Int) - 53
   -- floor(num / (den * 2^e)) for integer e
   let quo (e : Int) : Nat × Nat × Nat :=   -- (q, r, divisor)
@@ -69,6 +85,14 @@ def roundToDouble (num den : Nat) : Option (Nat × Int) :=
   let q' := if 2 * r > d ∨ (2 * r = d ∧ q % 2 = 1) then q + 1 else q
   let (q'', e3) := if q' = 2 ^ 53 then (2 ^ 52, e2 + 1) else (q', e2)
   if e3 > 971 then none else some (q'', e3)
+
+/-- Nearest-even binary64 to `num/den` (`den > 0`): `some (m, e)` meaning `m·2^e`, or `none` for
+    overflow to infinity. A value that is exactly representable is returned as it is; only
+    otherwise does rounding happen (the C09 theorems never enter the rounding branch). -/
+def roundToDouble (num den : Nat) : Option (Nat × Int) :=
+  match exactDouble? num den with
+  | some r => some r
+  | none => roundInexact num den
 
 /-- `float(v)` for a Python int: `none` = `OverflowError` -/
 def intToDouble (v : Int) : Option Num :=
